@@ -718,8 +718,10 @@ impl<'a, F: Float, K: 'a + Permutable<F>> SolverState<'a, F, K> {
             self.nactive = self.ntotal();
         }
 
-        // swap items until working set is homogeneous
-        for i in 0..self.nactive() {
+        // swap items until working set is homogeneous; the number of active variables
+        // shrinks while we iterate, so the bound has to be re-evaluated in every step
+        let mut i = 0;
+        while i < self.nactive() {
             if self.should_shrunk(i, gmax1, gmax2) {
                 self.nactive -= 1;
                 // only consider items behing this one
@@ -731,6 +733,7 @@ impl<'a, F: Float, K: 'a + Permutable<F>> SolverState<'a, F, K> {
                     self.nactive -= 1;
                 }
             }
+            i += 1;
         }
     }
 
@@ -746,8 +749,10 @@ impl<'a, F: Float, K: 'a + Permutable<F>> SolverState<'a, F, K> {
             self.nactive = self.ntotal();
         }
 
-        // swap items until working set is homogeneous
-        for i in 0..self.nactive() {
+        // swap items until working set is homogeneous; the number of active variables
+        // shrinks while we iterate, so the bound has to be re-evaluated in every step
+        let mut i = 0;
+        while i < self.nactive() {
             if self.should_shrunk_nu(i, gmax1, gmax2, gmax3, gmax4) {
                 self.nactive -= 1;
                 // only consider items behing this one
@@ -759,6 +764,7 @@ impl<'a, F: Float, K: 'a + Permutable<F>> SolverState<'a, F, K> {
                     self.nactive -= 1;
                 }
             }
+            i += 1;
         }
     }
 
